@@ -54,7 +54,7 @@ class Run:
         s.evidence = {
             'property_id': pid, 'tier': tier, 'seed': seed, 'level': 'model_checking',
             'coverage': {'states': 0, 'transitions': 0, 'traces_validated_against_impl': 0, 'samples': [], 'exhaustive': False,
-                         'explorations': [], 'solver_queries': 0, 'functions_encoded': [], 'native_models_used': [],
+                         'explorations': [], 'solver_queries': 0, 'solver_time_s': 0.0, 'functions_encoded': [], 'native_models_used': [],
                          'bounds': {}, 'vacuity': {}, 'differential': {}},
             'assumptions': [], 'wall_s': 0.0, 'violations': 0,
         }
@@ -104,10 +104,11 @@ class Run:
         cov['states'] += st['paths']
         cov['transitions'] += st['transitions']
         cov['solver_queries'] += st['queries']
+        cov['solver_time_s'] = round(cov['solver_time_s'] + st.get('solver_time', 0.0), 2)
         cov['functions_encoded'] = sorted(set(cov['functions_encoded']) | set(st['called']))
         cov['native_models_used'] = sorted(set(cov['native_models_used']) | set(st['natives']))
         cov['explorations'].append({'name': name, 'params': spec[2], 'paths': st['paths'], 'branch_decisions': st['transitions'],
-                                    'solver_queries': st['queries'], 'complete': st['complete'], 'wall_s': round(st['wall'], 1),
+                                    'solver_queries': st['queries'], 'solver_time_s': round(st.get('solver_time', 0.0), 2), 'complete': st['complete'], 'wall_s': round(st['wall'], 1),
                                     'cpu_s': round(st['worker_time'], 1)})
         s.log(f"[explore] {name}: {st['paths']} paths, {st['queries']} solver queries, {st['wall']:.1f}s wall, complete={st['complete']}")
         if st['errors']:
